@@ -137,18 +137,28 @@ package store
 //@   foreach 1 invariant STot(store) == old(STot(store)) && (forall k int :: SView(store, k) == old(SView(store, k)))
 
 // The ordered enumeration goes through sort.Slice with a closure over a slice of structs, which is outside the
-// verified subset: orderedBins is trusted (it reads the map and returns a new slice). KeyAtRank's body is verified
-// for everything except its two functional postconditions, which depend on that enumeration and are assumed:
-// in particular KeyAtRank is proved to change nothing (frame) and not to panic.
+// verified subset: orderedBins is trusted for "a strictly increasing enumeration of exactly the keys of the map,
+// each with its weight" (the library model of a sort). KeyAtRank is verified against that contract: the running
+// sum is the total of the view cut at the last enumerated key.
 //@ func SparseStore.orderedBins
 //@   serves C04 C01 C11
 //@   trusted sort.Slice over []Bin with a closure is outside the verified subset
 //@   requires MInv(s)
-//@   ensures len(result) >= 0
+//@   ensures len(result) >= 0 && fresh(result) && off(result) == 0
+//@   ensures elems: forall i int :: 0 <= i && i < len(result) ==> has(s.counts, result[i].index) && result[i].count == s.counts[result[i].index]
+//@   ensures sorted: forall i int, j int :: 0 <= i && i < j && j < len(result) ==> result[i].index < result[j].index
+//@   ensures complete-range: forall k int :: has(s.counts, k) ==> len(result) > 0 && result[0].index <= k && k <= result[len(result) - 1].index
+//@   ensures complete-gap: forall k int, i int :: has(s.counts, k) && 0 <= i && i + 1 < len(result) ==> !(result[i].index < k && k < result[i + 1].index)
+//@ fun MZeroArr() array_real := lambda j int :: 0.0
 //@ func SparseStore.KeyAtRank
 //@   serves C04 C01 C11
-//@   loop 1 invariant true
 //@   requires MInv(s)
-//@   ensures assumed[depends on the trusted ordered enumeration orderedBins] found: max(rank, 0.0) < MTot(s) ==> in32(result) && MView(s, result) > 0.0 && Tot(MCumArr(s, result)) > max(rank, 0.0) && Tot(MCumArr(s, result - 1)) <= max(rank, 0.0)
-//@   ensures assumed[depends on the trusted ordered enumeration orderedBins] clamp: rank >= MTot(s) && MTot(s) > 0.0 ==> has(s.counts, result) && (forall k int :: has(s.counts, k) ==> k <= result)
+//@   ensures found: max(rank, 0.0) < MTot(s) ==> in32(result) && MView(s, result) > 0.0 && Tot(MCumArr(s, result)) > max(rank, 0.0) && Tot(MCumArr(s, result - 1)) <= max(rank, 0.0)
+//@   ensures clamp: rank >= MTot(s) && MTot(s) > 0.0 ==> has(s.counts, result) && (forall k int :: has(s.counts, k) ==> k <= result)
+//@   loop 1 invariant cumulCount >= 0.0 && cumulCount <= max(rank, 0.0) && ($i1 == 0 ==> cumulCount == 0.0) && ($i1 > 0 ==> cumulCount == Tot(MCumArr(s, orderedBins[$i1 - 1].index)))
+//@   hint TotZero(MZeroArr()), TotPoint(MZeroArr(), MCumArr(s, orderedBins[$i1].index), orderedBins[$i1].index, orderedBins[$i1].count), TotPoint(MCumArr(s, orderedBins[$i1 - 1].index), MCumArr(s, orderedBins[$i1].index), orderedBins[$i1].index, orderedBins[$i1].count)
+//@   hint TotExt(MCumArr(s, orderedBins[$i1].index - 1), MZeroArr()), TotExt(MCumArr(s, orderedBins[$i1].index - 1), MCumArr(s, orderedBins[$i1 - 1].index))
+//@   hint TotPoint(MZeroArr(), MCumArr(s, orderedBins[$i1 - 1].index), orderedBins[$i1 - 1].index, orderedBins[$i1 - 1].count), TotPoint(MCumArr(s, orderedBins[$i1 - 2].index), MCumArr(s, orderedBins[$i1 - 1].index), orderedBins[$i1 - 1].index, orderedBins[$i1 - 1].count)
+//@   hint TotMono(MCumArr(s, orderedBins[$i1].index), MViewArr(s)), TotMono(MCumArr(s, orderedBins[$i1 - 1].index), MViewArr(s))
+//@   hint TotExt(MCumArr(s, orderedBins[len(orderedBins) - 1].index), MViewArr(s)), SetTot(vals(s.counts), dom(s.counts), MViewArr(s)), SetSumOfEmpty(vals(s.counts), dom(s.counts))
 //@ fun MCumArr(s *SparseStore, k int) array_real := lambda j int :: j <= k ? MView(s, j) : 0.0
